@@ -137,6 +137,15 @@ class Engine(ExprMixin, CallMixin):
         return self.from_expr(self.ev(n.exc, st), f)
 
     def st_Assert(self, n, st):
+        if getattr(self.cur, 'runtime_asserts', False):
+            # an assert used as a run-time check (inside try/except): Python semantics - raise AssertionError when false
+            def g(s, v):
+                outs = []
+                for s2, ok in self.branch(s, self.truth(v), f"assert@{n.lineno}"):
+                    outs.append(('fall', s2, None) if ok else ('raise', s2, VExc('AssertionError', site=n.lineno)))
+                return outs
+            return self.from_expr(self.ev(n.test, st), g)
+
         def f(s, v):
             self.stats['asserts'] += 1
             self.oblige(f"{self.cur_key}#assert@{self.assert_ordinal(n)}", s, self.truth(v), kind='assert')
